@@ -166,6 +166,10 @@ def run(ctx, R, tier):
     write_unconditional(F, R, rule='B.C03.cmd', floor=8, fn_filter=lambda p: ('sound::static_sound::handle' in p or 'sound::streaming::handle' in p)
                         and p.split('::')[-1] in ('pause', 'resume', 'resume_at', 'stop'))
     lifecycle_readers(F, R)
+    finite_length(F, R)
+    # a clock start time becomes Immediate exactly when the clock says Now (the C05 rule)
+    from .c05 import start_time_rule
+    start_time_rule(F, R)
     commands_reach_manager(F, R)
     # 'every finite non-looping sound reaches Stopped': what is stored as the loop region is what the command said (None clears it)
     from ..enginea import chk_loop_region_ordered
@@ -705,13 +709,19 @@ def fade_continuity(F, R, rule='B.SM.fade-continuity'):
             if (callee_path(t) or '') != 'parameter::Parameter::<T>::set' or len(t['args']) < 3:
                 continue
             l = op_local(t['args'][2])
+            pl0 = t['args'][2].get('pl') if isinstance(t['args'][2], dict) else None
+            if l is None and pl0 is not None and all(x[0] in ('downcast', 'field', 'deref') for x in pl0['p']):
+                l = pl0['l']
             for _ in range(6):
                 d = b.single_def(l) if l is not None else None
                 if l is not None and 1 <= l <= b.arg_count:
                     break
-                if d and d[0] == 'stmt' and d[3]['rv']['k'] == 'use' and op_local(d[3]['rv']['op']) is not None and not d[3]['rv']['op']['pl']['p']:
-                    l = op_local(d[3]['rv']['op'])
-                    continue
+                if d and d[0] == 'stmt' and d[3]['rv']['k'] == 'use' and 'pl' in d[3]['rv']['op']:
+                    # a copy of a variable, or of the payload of one (`match fade_in_tween { Some(tween) => .. }`)
+                    pr = d[3]['rv']['op']['pl']['p']
+                    if all(x[0] in ('downcast', 'field', 'deref') for x in pr):
+                        l = d[3]['rv']['op']['pl']['l']
+                        continue
                 break
             if not (l is not None and 1 <= l <= b.arg_count):
                 bad.append('%s hands Parameter::set a tween it built itself (%s), not the caller\'s' % (b.path, describe(b, t['args'][2], depth=3, at=bb)[:60]))
@@ -758,3 +768,16 @@ def commands_reach_manager(F, R, rule='B.C03.cmd-applied'):
             R.check(ok, rule, '%s:%s' % (tag, lf[0]), 'the %s sound does not hand every `%s` command it reads to PlaybackStateManager::%s' % (tag, lf[0], lf[0]),
                     detail={'reader': lf[0]}, where=v.file)
     R.floor(rule, n, 6)
+
+
+def finite_length(F, R):
+    """"Every finite non-looping sound reaches Stopped": the length a static sound plays to never exceeds the audio that
+    exists - `num_frames(frames, slice)` is `frames.len()` without a slice and otherwise bounded by it (`end.min(frames.len())`).
+    The slice is a public field; an unclamped `end - start` lets the transport run past the audio, playing silence for ever."""
+    b = F.body('sound::static_sound::data::num_frames')
+    if not R.check(b is not None, 'B.C03.finite-length', 'anchor', 'static_sound::data::num_frames not found'):
+        return
+    rets = [str(p.ret) for p in explore(b) if p.end == 'return']
+    ok = bool(rets) and all('len(' in r and 'frames' in r for r in rets)
+    R.check(ok, 'B.C03.finite-length', 'num_frames', 'num_frames returns %s: a length not bounded by the audio' % [r[:80] for r in rets if not ('len(' in r and 'frames' in r)][:2],
+            detail={'returns': [r[:100] for r in rets]}, where=b.file)
